@@ -5,9 +5,29 @@ import (
 	"fmt"
 	"os"
 	"path/filepath"
+	"sort"
 	"strings"
 
+	"bytes"
+	stdjson "encoding/json"
+
 	"bfeverif/harness/internal/vh"
+	"github.com/bfenetworks/bfe/bfe_balance"
+	"github.com/bfenetworks/bfe/bfe_config/bfe_tls_conf/session_ticket_key_conf"
+	"github.com/bfenetworks/bfe/bfe_config/bfe_tls_conf/tls_rule_conf"
+	"github.com/bfenetworks/bfe/bfe_modules/mod_auth_basic"
+	"github.com/bfenetworks/bfe/bfe_modules/mod_auth_jwt"
+	"github.com/bfenetworks/bfe/bfe_modules/mod_block"
+	"github.com/bfenetworks/bfe/bfe_modules/mod_compress"
+	"github.com/bfenetworks/bfe/bfe_modules/mod_cors"
+	"github.com/bfenetworks/bfe/bfe_modules/mod_header"
+	"github.com/bfenetworks/bfe/bfe_modules/mod_prison"
+	"github.com/bfenetworks/bfe/bfe_modules/mod_redirect"
+	"github.com/bfenetworks/bfe/bfe_modules/mod_rewrite"
+	"github.com/bfenetworks/bfe/bfe_modules/mod_secure_link"
+	"github.com/bfenetworks/bfe/bfe_modules/mod_static"
+	"github.com/bfenetworks/bfe/bfe_modules/mod_trust_clientip"
+	"github.com/bfenetworks/bfe/bfe_util/bns"
 	"github.com/bfenetworks/bfe/bfe_config/bfe_cluster_conf/cluster_conf"
 	"github.com/bfenetworks/bfe/bfe_config/bfe_cluster_conf/cluster_table_conf"
 	"github.com/bfenetworks/bfe/bfe_config/bfe_cluster_conf/gslb_conf"
@@ -45,6 +65,98 @@ func errClass(err error, checkPrefixes ...string) string {
 	return "decode"
 }
 
+
+// modLoaders: rule-file loaders driven at accept / reject / crash level only (no Lean model of their checks)
+var modLoaders = map[string]func(string) error{
+	"block":          func(f string) error { _, e := mod_block.ProductRuleConfLoad(f); return e },
+	"header":         func(f string) error { _, e := mod_header.HeaderConfLoad(f); return e },
+	"rewrite":        func(f string) error { _, e := mod_rewrite.ReWriteConfLoad(f); return e },
+	"redirect":       mod_redirect.VerifC13RedirectConfLoad,
+	"cors":           func(f string) error { _, e := mod_cors.CorsRuleFileLoad(f); return e },
+	"prison":         mod_prison.VerifC13ProductRuleConfLoad,
+	"static":         func(f string) error { _, e := mod_static.StaticConfLoad(f); return e },
+	"compress":       func(f string) error { _, e := mod_compress.ProductRuleConfLoad(f); return e },
+	"auth_basic":     func(f string) error { _, e := mod_auth_basic.AuthBasicConfLoad(f); return e },
+	"auth_jwt":       func(f string) error { _, e := mod_auth_jwt.AuthJWTConfLoad(f); return e },
+	"secure_link":    func(f string) error { _, e := mod_secure_link.DataLoad(f); return e },
+	"trust_clientip": func(f string) error { _, e := mod_trust_clientip.TrustIPConfLoad(f); return e },
+	"tls_rule":       func(f string) error { _, e := tls_rule_conf.TlsRuleConfLoad(f); return e },
+}
+
+var modNames = []string{"auth_basic", "auth_jwt", "block", "compress", "cors", "header", "prison", "redirect", "rewrite", "secure_link", "static", "tls_rule", "trust_clientip"}
+
+// sideDir: the shipped examples of auth_basic / auth_jwt name files relative to bfe's bin directory
+// ("../conf/mod_auth_basic/userfile"): they are written under <tmp>/conf and the process runs in <tmp>/bin.
+var sideReady bool
+
+func ensureSide() {
+	if sideReady {
+		return
+	}
+	writeTmp("x", "")
+	for rel, content := range sideFiles {
+		p := filepath.Join(tmpDir, rel)
+		os.MkdirAll(filepath.Dir(p), 0755)
+		os.WriteFile(p, []byte(content), 0644)
+	}
+	os.MkdirAll(filepath.Join(tmpDir, "bin"), 0755)
+	os.Chdir(filepath.Join(tmpDir, "bin"))
+	sideReady = true
+}
+
+func execMod(name, body string) string {
+	ld, ok := modLoaders[name]
+	if !ok {
+		return "bad-op"
+	}
+	ensureSide()
+	if err := ld(writeTmp("mod_"+name+".data", body)); err != nil {
+		return "err"
+	}
+	return "ok"
+}
+
+func execBal(body string) string {
+	parts := strings.Split(body, "~")
+	if len(parts) != 2 {
+		return "bad-op"
+	}
+	gf := writeTmp("gslb.data", parts[0])
+	cf := writeTmp("cluster_table.data", parts[1])
+	t := bfe_balance.NewBalTable(nil)
+	if err := t.Init(gf, cf); err != nil {
+		if strings.HasPrefix(err.Error(), "error in ClusterTable.") {
+			return "err:init"
+		}
+		return "err:load"
+	}
+	g, err := gslb_conf.GslbConfLoad(gf)
+	if err != nil {
+		return "err:reload"
+	}
+	var out []string
+	for cl, subs := range *g.Clusters {
+		bal, err := t.Lookup(cl)
+		if err != nil {
+			out = append(out, cl+":missing")
+			continue
+		}
+		for sub, w := range subs {
+			n := -1
+			if rr := bal.VerifC02SubRR(sub); rr != nil {
+				n = rr.Len()
+			}
+			out = append(out, fmt.Sprintf("%s:%s=%d/%d", cl, sub, w, n))
+		}
+		bal.Release()
+	}
+	sort.Strings(out)
+	if len(out) == 0 {
+		return "ok -"
+	}
+	return "ok " + strings.Join(out, ",")
+}
+
 func exec(op string) string {
 	i := strings.IndexByte(op, ' ')
 	if i < 0 {
@@ -52,6 +164,32 @@ func exec(op string) string {
 	}
 	kind, body := op[:i], op[i+1:]
 	switch kind {
+	case "bal":
+		return execBal(body)
+	case "name":
+		f := writeTmp("name_conf.data", body)
+		if err := bns.LoadLocalNameConf(f); err != nil {
+			return "err:" + errClass(err, "invalid instance")
+		}
+		return "ok"
+	case "ticket":
+		f := writeTmp("session_ticket_key.data", body)
+		if _, err := session_ticket_key_conf.SessionTicketKeyConfLoad(f); err != nil {
+			return "err"
+		}
+		return "ok"
+	case "mod":
+		j := strings.IndexByte(body, ' ')
+		if j < 0 {
+			return "bad-op"
+		}
+		return execMod(body[:j], body[j+1:])
+	case "moddoc":
+		ex, ok := examples[body]
+		if !ok {
+			return "bad-op"
+		}
+		return execMod(body, ex)
 	case "host":
 		f := writeTmp("host.data", body)
 		c, err := host_rule_conf.HostRuleConfLoad(f)
@@ -547,6 +685,24 @@ func mutate(r *vh.Rand, j interface{}, depth int) interface{} {
 				n.set("Extra", replacement())
 			case 2: // lower-case the key (decoder matches case-insensitively)
 				n.k[i] = strings.ToLower(n.k[i])
+			case 3: // duplicate key: same value, null, or a re-mutated copy; before or after the original
+				var v interface{} = x.v[i]
+				switch r.Intn(4) {
+				case 0:
+					v = nil
+				case 1, 2:
+					v = mutate(r, x.v[i], depth+1)
+				}
+				k := n.k[i]
+				if r.Chance(1, 4) {
+					k = strings.ToLower(k)
+				}
+				if r.Bool() {
+					n.set(k, v)
+				} else {
+					n.k = append([]string{k}, n.k...)
+					n.v = append([]interface{}{v}, n.v...)
+				}
 			default:
 				n.v[i] = mutate(r, x.v[i], depth+1)
 			}
@@ -602,7 +758,7 @@ func genAll(r *vh.Rand) string {
 	return "all " + js(h) + "~" + js(v) + "~" + js(ro) + "~" + js(cc)
 }
 
-func gen(r *vh.Rand) string {
+func genCore(r *vh.Rand) string {
 	prods := subset(r, products, 0, 3)
 	cls := subset(r, clusters, 0, 4)
 	var kind string
@@ -640,7 +796,138 @@ func gen(r *vh.Rand) string {
 	return kind + " " + js(j)
 }
 
+
+// parseOrdered turns JSON text into the generator's ordered AST.
+func parseOrdered(txt string) interface{} {
+	dec := stdjson.NewDecoder(bytes.NewReader([]byte(txt)))
+	dec.UseNumber()
+	var rd func() interface{}
+	rd = func() interface{} {
+		t, err := dec.Token()
+		if err != nil {
+			panic(err)
+		}
+		switch v := t.(type) {
+		case stdjson.Delim:
+			if v == '{' {
+				o := &obj{}
+				for dec.More() {
+					k, _ := dec.Token()
+					o.set(k.(string), rd())
+				}
+				dec.Token()
+				return o
+			}
+			arr := []interface{}{}
+			for dec.More() {
+				arr = append(arr, rd())
+			}
+			dec.Token()
+			return arr
+		case stdjson.Number:
+			return raw(v.String())
+		default:
+			return t
+		}
+	}
+	return rd()
+}
+
+func genMod(r *vh.Rand) string {
+	name := modNames[r.Intn(len(modNames))]
+	j := parseOrdered(examples[name])
+	n := r.Range(1, 3)
+	for i := 0; i < n; i++ {
+		j = mutate(r, j, 0)
+	}
+	return "mod " + name + " " + js(j)
+}
+
+func genName(r *vh.Rand) string {
+	cfg := &obj{}
+	for _, c := range subset(r, clusters, 0, 3) {
+		var l []interface{}
+		for i := r.Range(0, 2); i > 0; i-- {
+			l = append(l, (&obj{}).set("Host", r.Pick("10.0.0.1", "h.example", "h.example", "")).
+				set("Port", []int{0, 80, 65535, 65536, -1}[r.Intn(5)]).set("Weight", r.Range(-1, 5)))
+		}
+		if l == nil {
+			l = []interface{}{}
+		}
+		cfg.set(c, l)
+	}
+	var j interface{} = (&obj{}).set("Version", "v1").set("Config", cfg)
+	if r.Chance(2, 5) {
+		j = mutate(r, j, 0)
+	}
+	return "name " + js(j)
+}
+
+func genTicket(r *vh.Rand) string {
+	hexd := "0123456789abcdefABCDEF"
+	n := []int{96, 96, 96, 95, 97, 94, 0, 48}[r.Intn(8)]
+	b := make([]byte, n)
+	for i := range b {
+		b[i] = hexd[r.Intn(len(hexd))]
+	}
+	if n > 0 && r.Chance(1, 6) {
+		b[r.Intn(n)] = 'g'
+	}
+	switch r.Intn(8) {
+	case 0: // raw 48-byte key file (not JSON): the loader falls back to the raw format
+		return "ticket " + strings.Repeat("k", 47) + r.Pick("x", "xy", "")
+	case 1:
+		return "ticket " + js(mutate(r, (&obj{}).set("Version", "v").set("SessionTicketKey", string(b)), 0))
+	}
+	return "ticket " + js((&obj{}).set("Version", r.Pick("v1", "v1", "")).set("SessionTicketKey", string(b)))
+}
+
+func genBal(r *vh.Rand) string {
+	cls := subset(r, clusters, 1, 3)
+	g := genGslb(r, cls)
+	ctCls := cls
+	switch r.Intn(6) {
+	case 0: // a gslb cluster missing from the cluster table
+		if len(cls) > 1 {
+			ctCls = cls[1:]
+		}
+	case 1:
+		ctCls = append(append([]string(nil), cls...), "c9")
+	}
+	ct := genCt(r, ctCls)
+	var gj, cj interface{} = g, ct
+	if r.Chance(1, 6) {
+		if r.Bool() {
+			gj = mutate(r, gj, 0)
+		} else {
+			cj = mutate(r, cj, 0)
+		}
+	}
+	return "bal " + js(gj) + "~" + js(cj)
+}
+
+func gen(r *vh.Rand) string {
+	switch r.Intn(10) {
+	case 0, 1:
+		return genMod(r)
+	case 2:
+		switch r.Intn(3) {
+		case 0:
+			return genName(r)
+		case 1:
+			return genTicket(r)
+		}
+		return genBal(r)
+	}
+	return genCore(r)
+}
+
 func main() {
+	vh.Pre = func(emit func(string), thorough bool) {
+		for _, n := range modNames {
+			emit("moddoc " + n)
+		}
+	}
 	defer func() {
 		if tmpDir != "" {
 			os.RemoveAll(tmpDir)
